@@ -558,6 +558,9 @@ fn concat(cx: &mut Ctx, items: &[Item], w: &Plan, r: &Plan, tail: u8) -> R {
     for it in items {
         let (cal, _) = cx.w.item(*it);
         let before = cal.clone();
+        if before != *cal {
+            return fail("clone_not_equal", "a clone taken before serialize is != the original (equality is not set equality)".into());
+        }
         let res = cal.serialize(&mut sw);
         if *cal != before {
             return fail("source_changed", "serialize changed the source calendar".into());
